@@ -210,6 +210,24 @@ func RunC11(ep *core.Episode) {
 				ex.respBytes = b
 			}
 			exs = append(exs, ex)
+			if tp.Chance("abandon", 1, 6) {
+				// a request that is prepared and never sent (its context is already cancelled): its objects go
+				// back to the pools and come out again for the real exchange
+				rqa := genC11Req(tp, ep, 100+i, e2e)
+				ra, rra := protocol.AcquireRequest(), protocol.AcquireResponse()
+				rqa.apply(ra, tp)
+				cctx, cancel := context.WithCancel(context.Background())
+				cancel()
+				aerr := hc.Do(cctx, ra, rra)
+				S.Yield("caller.afterAbandon")
+				if aerr == nil {
+					ep.Fail("C11.response", "exchange %d: Do with an already cancelled context returned nil", i)
+					return
+				}
+				protocol.ReleaseRequest(ra)
+				protocol.ReleaseResponse(rra)
+				ep.Probe("abandoned-request")
+			}
 			req := protocol.AcquireRequest()
 			resp := protocol.AcquireResponse()
 			rq.apply(req, tp)
@@ -696,6 +714,27 @@ func checkC11Resp(ep *core.Episode, i int, rq *c11req, want *wire.Msg, resp *pro
 		return
 	}
 	var body []byte
+	if resp.IsBodyStream() && ep.Tape.Chance("partialread", 1, 4) {
+		// the caller looks at the beginning of the streamed body only and closes the stream: the client has to
+		// dispose of the rest (or of the connection) before the next exchange
+		k := []int{0, 1, 100, len(want.Body) / 2, 4096, 8191}[ep.Tape.Choose("partialk", 6)]
+		if k > len(want.Body) {
+			k = len(want.Body)
+		}
+		buf := make([]byte, k)
+		n, rerr := io.ReadFull(resp.BodyStream(), buf)
+		if rerr != nil && k > 0 {
+			ep.Fail("C11.response", "exchange %d: reading %d of %d streamed body bytes failed after %dB: %v", i, k, len(want.Body), n, rerr)
+			return
+		}
+		if !bytes.Equal(buf[:n], want.Body[:k]) {
+			ep.Fail("C11.response", "exchange %d: the first %d streamed body bytes differ from what the server sent (first difference at %d)", i, k, firstDiff(buf[:n], want.Body[:k]))
+			return
+		}
+		ep.Probe("stream-partial-read")
+		resp.CloseBodyStream() //nolint:errcheck
+		return
+	}
 	if resp.IsBodyStream() {
 		b, rerr := io.ReadAll(resp.BodyStream())
 		cerr := resp.CloseBodyStream()
